@@ -15,7 +15,7 @@ from sim import world as Wd
 ID = 'C15'
 LEVEL = 'fault_enumeration'
 ENGINE = 'crash'
-BUDGET = {'quick': 500, 'thorough': 20000}
+BUDGET = {'quick': 1200, 'thorough': 20000}
 WALL = {'quick': 50, 'thorough': 1800}
 RULE = ('scenarios: trash-restore (single / multi index; file, deep directory, symlink; same-volume and cross-volume destination so that copy '
         'and delete steps are crash points), trash-empty (with/without DAYS, several trash dirs, orphans), trash-rm (several matches); ALL '
@@ -114,6 +114,9 @@ def check(sim, case, st):
         for ev in r.trace:
             if ev[2] == 'KILL':
                 killop = ev[3]
+            elif ev[2] == 'INTR':
+                killop = 'sigint:' + ev[3]
+                st.probes['sigint-deliveries'] += 1
         where = 'k=%s/%s before %s' % (k, n, killop)
 
         def bad(clause, msg, e=None):
